@@ -170,6 +170,7 @@ func observePartial(e *emitter, pi *partialInst, rf *refForest, dead []u.Hash, r
 		for x := uint64(0); x <= top && x < 80; x++ {
 			e.line("GETHASH %s 0 %d %s %d", label, x, hx(m.GetHash(x)), m.TotalRows)
 		}
+		emitMapRead(e, m, rf, sortedSet(pi.R), rng)
 		// every sub-list of the remembered leaves is provable with the canonical proof
 		for k := 0; k < 3 && len(R) > 0; k++ {
 			rng.Shuffle(len(R), func(i, j int) { R[i], R[j] = R[j], R[i] })
